@@ -734,4 +734,14 @@ pub const SUBST_POOL: &[&str] = &[
     "en-t-de-Latn-AT-k0-dvorak-h0",
     "en-x-a-12345678",
     "fr-u-attr-ca-true-t-es-h0-hybrid-x-priv",
+    // every subtag class at its shortest and longest length and with its digit / letter positions exchanged
+    "abc",
+    "abcde-Latn",
+    "ja-JP-x-a",
+    "en-u-1a-abc-abcdefgh",
+    "en-u-abcdefgh-a1b-c9-123",
+    "und-t-und-Cyrl-001-1abc-m0-abc-12345678",
+    "EN_LATN_US_VALENCIA_U_CA_GREGORY",
+    "en-t-k0-abc-z9-true-x-1-zz",
+    "en-a-abc-b-12345678",
 ];
